@@ -60,13 +60,25 @@ fn all_ranges(ends: &[&str]) -> Vec<Rg> {
 }
 
 fn endpoint(op: &str, r: R) -> ApiEndpoint<StubContext> {
+    endpoint_at(op, r, "/x")
+}
+
+fn endpoint_at(op: &str, r: R, path: &str) -> ApiEndpoint<StubContext> {
     ApiEndpoint::new_for_types::<(), Result<HttpResponseOk<()>, HttpError>>(
         op.to_string(),
         http::Method::GET,
         "application/json",
-        "/x",
+        path,
         r,
     )
+}
+
+/// The operation id the document for version `v` lists for `GET <path>` ("404": none).
+fn documented(api: &ApiDescription<StubContext>, v: &Version, path: &str) -> String {
+    match api.openapi("t", v.clone()).json() {
+        Ok(j) => j["paths"][path]["get"]["operationId"].as_str().unwrap_or("404").to_string(),
+        Err(_) => "error".to_string(),
+    }
 }
 
 /// Observable route: register h1 then h2 on the same method and path; is the
@@ -87,13 +99,26 @@ fn rg_case(r1: &Rg, r2: &Rg, probe: Option<&str>) -> Option<String> {
             (0, api)
         }
     };
-    let router = api.into_router();
     let pv = probe.map(|p| Version::parse(p).unwrap());
+    // the same ranges mean the same thing in the document, on an ordinary path and on the
+    // root path (the same endpoints registered once more at "/", ids r1 / r2)
+    let doc = match &pv {
+        None => "na na".to_string(),
+        Some(v) => {
+            let mut api_root = ApiDescription::<StubContext>::new();
+            api_root.register(endpoint_at("r1", r1.real()?, "/")).unwrap();
+            if acc == 1 {
+                api_root.register(endpoint_at("r2", r2.real()?, "/")).unwrap();
+            }
+            format!("{} {}", documented(&api, v, "/x"), documented(&api_root, v, "/"))
+        }
+    };
+    let router = api.into_router();
     let hit = match router.lookup_route(&http::Method::GET, "/x".into(), pv.as_ref()) {
         Ok(res) => res.endpoint.operation_id.clone(),
         Err(e) => format!("{}", e.status_code.as_u16()),
     };
-    Some(format!("{} {}", acc, hit))
+    Some(format!("{} {} {}", acc, hit, doc))
 }
 
 /// Three endpoints on one method and path: which registrations are accepted
